@@ -117,6 +117,12 @@ let hd default = function
 | [] -> default
 | x :: _ -> x
 
+(** val tl : 'a1 list -> 'a1 list **)
+
+let tl = function
+| [] -> []
+| _ :: m0 -> m0
+
 (** val nth : nat -> 'a1 list -> 'a1 -> 'a1 **)
 
 let rec nth n0 l default =
@@ -3589,3 +3595,466 @@ let run_level fx fuel code level input0 =
         | OptOk r -> run_inc fuel r.olog r.orest r.ostate
         | OptErr e -> FErr (e, (state0 SUnopt input0))
         | OptStuck -> FPanic (state0 SUnopt input0))
+
+(** val trim_left : n list -> n list **)
+
+let rec trim_left l = match l with
+| [] -> []
+| c :: r -> if is_ws c then trim_left r else l
+
+(** val trim : n list -> n list **)
+
+let trim l =
+  rev (trim_left (rev (trim_left l)))
+
+(** val kW_CLEAR : n list **)
+
+let kW_CLEAR =
+  (Npos (XI (XI (XO (XO (XO (XI XH))))))) :: ((Npos (XO (XO (XI (XI (XO (XI
+    XH))))))) :: ((Npos (XI (XO (XI (XO (XO (XI XH))))))) :: ((Npos (XI (XO
+    (XO (XO (XO (XI XH))))))) :: ((Npos (XO (XI (XO (XO (XI (XI
+    XH))))))) :: []))))
+
+(** val kW_HELP : n list **)
+
+let kW_HELP =
+  (Npos (XO (XO (XO (XI (XO (XI XH))))))) :: ((Npos (XI (XO (XI (XO (XO (XI
+    XH))))))) :: ((Npos (XO (XO (XI (XI (XO (XI XH))))))) :: ((Npos (XO (XO
+    (XO (XO (XI (XI XH))))))) :: [])))
+
+(** val kW_EXIT : n list **)
+
+let kW_EXIT =
+  (Npos (XI (XO (XI (XO (XO (XI XH))))))) :: ((Npos (XO (XO (XO (XI (XI (XI
+    XH))))))) :: ((Npos (XI (XO (XO (XI (XO (XI XH))))))) :: ((Npos (XO (XO
+    (XI (XO (XI (XI XH))))))) :: [])))
+
+(** val leqb : n list -> n list -> bool **)
+
+let leqb a b0 =
+  if list_eq_dec N.eq_dec a b0 then true else false
+
+type revent =
+| EvNothing
+| EvHelp
+| EvFlush of n list * n list
+
+type rend =
+| RAlive
+| RQuit
+| RProgExit of n
+| RFail of errkind
+| RFuelOut
+| RPanicked
+
+(** val with_fresh_io : state -> state **)
+
+let with_fresh_io s =
+  { skind_ = s.skind_; stacks = s.stacks; cur = s.cur; points = s.points;
+    latest = s.latest; inp = s.inp; outb = []; errb = [] }
+
+(** val flush_of : state -> revent **)
+
+let flush_of s =
+  EvFlush ((rev s.outb), (rev s.errb))
+
+(** val repl :
+    bool -> nat -> n list list -> xcode list -> state -> revent list * rend **)
+
+let rec repl fx12 fuel lines log s =
+  match lines with
+  | [] -> ([], RAlive)
+  | line0 :: rest ->
+    let t = trim line0 in
+    if leqb t []
+    then let (ev, e) = repl fx12 fuel rest log s in ((EvNothing :: ev), e)
+    else if leqb t kW_CLEAR
+         then let (ev, e) = repl fx12 fuel rest [] (state0 SUnopt s.inp) in
+              (((EvFlush ([], [])) :: ev), e)
+         else if leqb t kW_HELP
+              then let (ev, e) = repl fx12 fuel rest log s in
+                   ((EvHelp :: ev), e)
+              else if leqb t kW_EXIT
+                   then ([], RQuit)
+                   else let cmds = map xcode_of_ucode (parse line0) in
+                        (match run_inc fuel log cmds (with_fresh_io s) with
+                         | FDone s' ->
+                           let (ev, e) = repl fx12 fuel rest (app log cmds) s'
+                           in
+                           (((flush_of s') :: ev), e)
+                         | FExit (c, s') ->
+                           (((flush_of s') :: []), (RProgExit c))
+                         | FErr (e, s') ->
+                           ((if fx12 then (flush_of s') :: [] else []),
+                             (RFail e))
+                         | FFuel (s', _) -> (((flush_of s') :: []), RFuelOut)
+                         | FPanic s' -> (((flush_of s') :: []), RPanicked))
+
+(** val repl_run : bool -> nat -> n list list -> revent list * rend **)
+
+let repl_run fx12 fuel lines =
+  repl fx12 fuel lines [] (state0 SUnopt [])
+
+type ierr =
+| IEmpty
+| IInvalid
+| IOverflow
+
+(** val uSIZE_MAX : n **)
+
+let uSIZE_MAX =
+  Npos (XI (XI (XI (XI (XI (XI (XI (XI (XI (XI (XI (XI (XI (XI (XI (XI (XI
+    (XI (XI (XI (XI (XI (XI (XI (XI (XI (XI (XI (XI (XI (XI (XI (XI (XI (XI
+    (XI (XI (XI (XI (XI (XI (XI (XI (XI (XI (XI (XI (XI (XI (XI (XI (XI (XI
+    (XI (XI (XI (XI (XI (XI (XI (XI (XI (XI
+    XH)))))))))))))))))))))))))))))))))))))))))))))))))))))))))))))))
+
+(** val digits_acc : n list -> n -> (n option, ierr) sum **)
+
+let rec digits_acc l acc =
+  match l with
+  | [] -> Inl (Some acc)
+  | c :: r ->
+    if (&&) (N.leb (Npos (XO (XO (XO (XO (XI XH)))))) c)
+         (N.leb c (Npos (XI (XO (XO (XI (XI XH)))))))
+    then let v =
+           N.add (N.mul acc (Npos (XO (XI (XO XH)))))
+             (N.sub c (Npos (XO (XO (XO (XO (XI XH)))))))
+         in
+         if N.ltb uSIZE_MAX v then Inr IOverflow else digits_acc r v
+    else Inr IInvalid
+
+(** val parse_usize : n list -> (n, ierr) sum **)
+
+let parse_usize w = match w with
+| [] -> Inr IEmpty
+| c :: r ->
+  let body0 = if N.eqb c (Npos (XI (XI (XO (XI (XO XH)))))) then r else w in
+  (match body0 with
+   | [] -> Inr IInvalid
+   | _ :: _ ->
+     (match digits_acc body0 N0 with
+      | Inl o -> (match o with
+                  | Some v -> Inl v
+                  | None -> Inr IInvalid)
+      | Inr e -> Inr e))
+
+(** val split_sp : n list -> n list -> n list list **)
+
+let rec split_sp l cur0 =
+  match l with
+  | [] -> (rev cur0) :: []
+  | c :: r ->
+    if N.eqb c (Npos (XO (XO (XO (XO (XO XH))))))
+    then (rev cur0) :: (split_sp r [])
+    else split_sp r (c :: cur0)
+
+type devent =
+| DvPrompt
+| DvShowCode of n list
+| DvFlush of n list * n list
+| DvMovedBack
+| DvCantGoBack
+| DvState of n
+| DvListBreaks
+| DvIntErr of ierr
+| DvRange
+| DvSet of n
+| DvUnset of n
+| DvHelp
+| DvNotFound of n list
+
+type dend =
+| DEof
+| DQuit
+| DFinished
+| DProgExit of n
+| DFail of errkind
+| DPanic
+| DFuelOut
+
+type dstate = { hist : (state * n) list; brk : n list; running : bool;
+                dio : state }
+
+(** val w_next : n list **)
+
+let w_next =
+  (Npos (XO (XI (XI (XI (XO (XI XH))))))) :: ((Npos (XI (XO (XI (XO (XO (XI
+    XH))))))) :: ((Npos (XO (XO (XO (XI (XI (XI XH))))))) :: ((Npos (XO (XO
+    (XI (XO (XI (XI XH))))))) :: [])))
+
+(** val w_previous : n list **)
+
+let w_previous =
+  (Npos (XO (XO (XO (XO (XI (XI XH))))))) :: ((Npos (XO (XI (XO (XO (XI (XI
+    XH))))))) :: ((Npos (XI (XO (XI (XO (XO (XI XH))))))) :: ((Npos (XO (XI
+    (XI (XO (XI (XI XH))))))) :: ((Npos (XI (XO (XO (XI (XO (XI
+    XH))))))) :: ((Npos (XI (XI (XI (XI (XO (XI XH))))))) :: ((Npos (XI (XO
+    (XI (XO (XI (XI XH))))))) :: ((Npos (XI (XI (XO (XO (XI (XI
+    XH))))))) :: [])))))))
+
+(** val w_run : n list **)
+
+let w_run =
+  (Npos (XO (XI (XO (XO (XI (XI XH))))))) :: ((Npos (XI (XO (XI (XO (XI (XI
+    XH))))))) :: ((Npos (XO (XI (XI (XI (XO (XI XH))))))) :: []))
+
+(** val w_state : n list **)
+
+let w_state =
+  (Npos (XI (XI (XO (XO (XI (XI XH))))))) :: ((Npos (XO (XO (XI (XO (XI (XI
+    XH))))))) :: ((Npos (XI (XO (XO (XO (XO (XI XH))))))) :: ((Npos (XO (XO
+    (XI (XO (XI (XI XH))))))) :: ((Npos (XI (XO (XI (XO (XO (XI
+    XH))))))) :: []))))
+
+(** val w_break : n list **)
+
+let w_break =
+  (Npos (XO (XI (XO (XO (XO (XI XH))))))) :: ((Npos (XO (XI (XO (XO (XI (XI
+    XH))))))) :: ((Npos (XI (XO (XI (XO (XO (XI XH))))))) :: ((Npos (XI (XO
+    (XO (XO (XO (XI XH))))))) :: ((Npos (XI (XI (XO (XI (XO (XI
+    XH))))))) :: []))))
+
+(** val w_help : n list **)
+
+let w_help =
+  (Npos (XO (XO (XO (XI (XO (XI XH))))))) :: ((Npos (XI (XO (XI (XO (XO (XI
+    XH))))))) :: ((Npos (XO (XO (XI (XI (XO (XI XH))))))) :: ((Npos (XO (XO
+    (XO (XO (XI (XI XH))))))) :: [])))
+
+(** val w_exit : n list **)
+
+let w_exit =
+  (Npos (XI (XO (XI (XO (XO (XI XH))))))) :: ((Npos (XO (XO (XO (XI (XI (XI
+    XH))))))) :: ((Npos (XI (XO (XO (XI (XO (XI XH))))))) :: ((Npos (XO (XO
+    (XI (XO (XI (XI XH))))))) :: [])))
+
+(** val is_word : n list -> n list -> n -> bool **)
+
+let is_word t full abbr =
+  (||) (leqb t full) (leqb t (abbr :: []))
+
+(** val ins_asc : n -> n list -> n list **)
+
+let rec ins_asc x l = match l with
+| [] -> x :: []
+| y :: r -> if N.leb x y then x :: l else y :: (ins_asc x r)
+
+(** val sort_asc : n list -> n list **)
+
+let sort_asc l =
+  fold_right ins_asc [] l
+
+(** val mem_N : n -> n list -> bool **)
+
+let mem_N x l =
+  existsb (N.eqb x) l
+
+(** val remove_N : n -> n list -> n list **)
+
+let remove_N x l =
+  filter (fun y -> negb (N.eqb y x)) l
+
+(** val dstep0 : xcode list -> dstate -> ((state * n) * state, final) sum **)
+
+let dstep0 code d =
+  match d.hist with
+  | [] -> Inr (FPanic d.dio)
+  | p :: _ ->
+    let (s, pc) = p in
+    (match nth_error code (N.to_nat pc) with
+     | Some c ->
+       let s_io = { skind_ = s.skind_; stacks = s.stacks; cur = s.cur;
+         points = s.points; latest = s.latest; inp = s.inp; outb =
+         d.dio.outb; errb = d.dio.errb }
+       in
+       (match execute_one c pc s_io with
+        | ROk (pc', s') -> Inl ((s', pc'), s')
+        | RExit (k, s') -> Inr (FExit (k, s'))
+        | RErr (e, s') -> Inr (FErr (e, s')))
+     | None -> Inr (FPanic d.dio))
+
+(** val flushed : state -> devent **)
+
+let flushed io =
+  DvFlush ((rev io.outb), (rev io.errb))
+
+(** val clear_io : state -> state **)
+
+let clear_io =
+  with_fresh_io
+
+(** val dloop :
+    bool -> bool -> nat -> xcode list -> n list list -> dstate -> devent
+    list * dend **)
+
+let rec dloop fx11 fx13 fuel code lines d =
+  match fuel with
+  | O -> ([], DFuelOut)
+  | S f ->
+    (match d.hist with
+     | [] -> ([], DPanic)
+     | p :: older ->
+       let (_, pc) = p in
+       let len = N.of_nat (length code) in
+       if N.leb len pc
+       then (((flushed d.dio) :: []), DFinished)
+       else if d.running
+            then if mem_N pc d.brk
+                 then let (ev, e) =
+                        dloop fx11 fx13 f code lines { hist = d.hist; brk =
+                          d.brk; running = false; dio = (clear_io d.dio) }
+                      in
+                      (((flushed d.dio) :: ev), e)
+                 else (match dstep0 code d with
+                       | Inl p0 ->
+                         let (p1, io') = p0 in
+                         dloop fx11 fx13 f code lines { hist =
+                           (p1 :: d.hist); brk = d.brk; running = true; dio =
+                           io' }
+                       | Inr f0 ->
+                         (match f0 with
+                          | FExit (k, io') ->
+                            (((flushed io') :: []), (DProgExit k))
+                          | FErr (e, io') ->
+                            ((if fx13 then (flushed io') :: [] else []),
+                              (DFail e))
+                          | _ -> ([], DPanic)))
+            else (match lines with
+                  | [] -> ((DvPrompt :: []), DEof)
+                  | line0 :: rest ->
+                    let toks = split_sp (trim line0) [] in
+                    let t0 = hd [] toks in
+                    let again = fun evs ->
+                      let (ev, e) = dloop fx11 fx13 f code rest d in
+                      ((DvPrompt :: (app evs ev)), e)
+                    in
+                    if is_word t0 w_next (Npos (XO (XI (XI (XI (XO (XI
+                         XH)))))))
+                    then (match dstep0 code d with
+                          | Inl p0 ->
+                            let (p1, io') = p0 in
+                            let (ev, e) =
+                              dloop fx11 fx13 f code rest { hist =
+                                (p1 :: d.hist); brk = d.brk; running = false;
+                                dio = (clear_io io') }
+                            in
+                            ((DvPrompt :: ((DvShowCode
+                            (pc :: [])) :: ((flushed io') :: ev))), e)
+                          | Inr f0 ->
+                            (match f0 with
+                             | FExit (k, io') ->
+                               ((DvPrompt :: ((DvShowCode
+                                 (pc :: [])) :: ((flushed io') :: []))),
+                                 (DProgExit k))
+                             | FErr (e, io') ->
+                               ((app (DvPrompt :: ((DvShowCode
+                                  (pc :: [])) :: []))
+                                  (if fx13 then (flushed io') :: [] else [])),
+                                 (DFail e))
+                             | _ -> ((DvPrompt :: []), DPanic)))
+                    else if is_word t0 w_previous (Npos (XO (XO (XO (XO (XI
+                              (XI XH)))))))
+                         then (match older with
+                               | [] -> again (DvCantGoBack :: [])
+                               | _ :: _ ->
+                                 let (ev, e) =
+                                   dloop fx11 fx13 f code rest { hist =
+                                     older; brk = d.brk; running = false;
+                                     dio = d.dio }
+                                 in
+                                 ((DvPrompt :: (DvMovedBack :: ev)), e))
+                         else if is_word t0 w_run (Npos (XO (XI (XO (XO (XI
+                                   (XI XH)))))))
+                              then (match dstep0 code d with
+                                    | Inl p0 ->
+                                      let (p1, io') = p0 in
+                                      let (ev, e) =
+                                        dloop fx11 fx13 f code rest { hist =
+                                          (p1 :: d.hist); brk = d.brk;
+                                          running = true; dio = io' }
+                                      in
+                                      ((DvPrompt :: ev), e)
+                                    | Inr f0 ->
+                                      (match f0 with
+                                       | FExit (k, io') ->
+                                         ((DvPrompt :: ((flushed io') :: [])),
+                                           (DProgExit k))
+                                       | FErr (e, io') ->
+                                         ((DvPrompt :: (if fx13
+                                                        then (flushed io') :: []
+                                                        else [])), (DFail e))
+                                       | _ -> ((DvPrompt :: []), DPanic)))
+                              else if is_word t0 w_state (Npos (XI (XI (XO
+                                        (XO (XI (XI XH)))))))
+                                   then again ((DvState
+                                          (N.of_nat (length older))) :: [])
+                                   else if is_word t0 w_break (Npos (XO (XI
+                                             (XO (XO (XO (XI XH)))))))
+                                        then (match tl toks with
+                                              | [] ->
+                                                if forallb (fun i ->
+                                                     N.ltb i len) d.brk
+                                                then again
+                                                       (DvListBreaks :: ((DvShowCode
+                                                       (sort_asc d.brk)) :: []))
+                                                else ((DvPrompt :: []),
+                                                       DPanic)
+                                              | w :: _ ->
+                                                (match parse_usize w with
+                                                 | Inl n0 ->
+                                                   if if fx11
+                                                      then N.leb len n0
+                                                      else N.ltb len n0
+                                                   then again (DvRange :: [])
+                                                   else if mem_N n0 d.brk
+                                                        then let (ev, e) =
+                                                               dloop fx11
+                                                                 fx13 f code
+                                                                 rest
+                                                                 { hist =
+                                                                 d.hist;
+                                                                 brk =
+                                                                 (remove_N n0
+                                                                   d.brk);
+                                                                 running =
+                                                                 false; dio =
+                                                                 d.dio }
+                                                             in
+                                                             ((DvPrompt :: ((DvUnset
+                                                             n0) :: ev)), e)
+                                                        else let (ev, e) =
+                                                               dloop fx11
+                                                                 fx13 f code
+                                                                 rest
+                                                                 { hist =
+                                                                 d.hist;
+                                                                 brk =
+                                                                 (n0 :: d.brk);
+                                                                 running =
+                                                                 false; dio =
+                                                                 d.dio }
+                                                             in
+                                                             ((DvPrompt :: ((DvSet
+                                                             n0) :: ev)), e)
+                                                 | Inr e ->
+                                                   again ((DvIntErr e) :: [])))
+                                        else if is_word t0 w_help (Npos (XO
+                                                  (XO (XO (XI (XO (XI
+                                                  XH)))))))
+                                             then again (DvHelp :: [])
+                                             else if leqb t0 w_exit
+                                                  then ((DvPrompt :: []),
+                                                         DQuit)
+                                                  else if leqb t0 []
+                                                       then again []
+                                                       else again
+                                                              ((DvNotFound
+                                                              t0) :: [])))
+
+(** val debug_run :
+    bool -> bool -> nat -> xcode list -> n list list -> devent list * dend **)
+
+let debug_run fx11 fx13 fuel code lines =
+  dloop fx11 fx13 fuel code lines { hist = (((state0 SUnopt []), N0) :: []);
+    brk = (N0 :: []); running = false; dio = (state0 SUnopt []) }
